@@ -255,11 +255,12 @@ def make_stream(rng, plan, fault=None, fault_block=None):
             dyn_block(bw, rng, toks, final, maxdepth=9, fault=f)
         else:
             style = {"litonly": "lits", "edges": "edges"}.get(kind, "mix")
-            nt = rng.randrange(1, 120) if kind != "bigdyn" else rng.randrange(1500, 6000)
+            nt = rng.randrange(1, 120) if kind not in ("bigdyn", "middyn") else rng.randrange(1500, 6000) if kind == "bigdyn" else rng.randrange(900, 1300)
             toks, total = random_tokens(rng, nt, total, style)
             if f == "dist_too_far":
                 toks = [("lit", 1)] + toks; total += 1
             depth = 15 if kind in ("dynamic15", "bigdyn") else rng.choice([7, 9, 10, 11, 12, 13])
+            if kind == "middyn": style, depth = "lits", rng.choice([9, 12, 15])
             dyn_block(bw, rng, toks, final, maxdepth=depth, rle=rng.choice(["mixed", "plain", "short", "mixed"]), fault=f, single_dist=(kind == "litonly"))
             if f == "dist_too_far":
                 pass
@@ -302,6 +303,6 @@ def too_far_stream(rng):
 
 PLANS = [["fixed"], ["dynamic"], ["dynamic15"], ["stored"], ["empty_stored", "fixed"], ["empty_fixed", "dynamic"], ["stored", "dynamic", "fixed"],
          ["dynamic", "stored", "dynamic15"], ["litonly"], ["edges"], ["edges", "edges", "fixed"], ["distfar"], ["fixed", "empty_stored", "empty_stored", "stored"],
-         ["dynamic15", "dynamic15"], ["litonly", "empty_fixed"], ["bigdyn"], ["stored", "distfar"]]
+         ["dynamic15", "dynamic15"], ["litonly", "empty_fixed"], ["bigdyn"], ["stored", "distfar"], ["middyn"], ["middyn", "fixed"]]
 FAULTS = {"btype3": "block", "len_nlen": "block", "oversubscribed_ll": "block", "oversubscribed_cl": "block", "no_eob": "block", "rep16_first": "block",
           "rep_past_end": "block", "dist_sym_30": "symbol", "ll_sym_286": "symbol", "dist_too_far": "lookback"}
